@@ -390,6 +390,12 @@ func (r *c09Runner) guard(f []string) string {
 		}
 		return int(c), true
 	}
+	if f[0] == "xdup" {
+		if len(f) < 3 || (f[1] != "fail" && f[1] != "ok") {
+			return "bad-op"
+		}
+		return r.guard(append([]string{"xapp"}, f[2:]...))
+	}
 	switch f[0] {
 	case "app":
 		if _, ok := ch(1, 2); !ok {
@@ -465,7 +471,9 @@ func (r *c09Runner) guard(f []string) string {
 		if cp, err := r.store(c).LoadCheckpoint(); err == nil {
 			hw = cp.HW
 		}
-		if th > hw {
+		// exact-proposal channel: retention is adopted only through committed messages; plain channels may adopt
+		// a boundary beyond the local log end (a follower that is behind the cluster-wide retention boundary)
+		if c == 3 && th > hw {
 			return "guard:above-hw"
 		}
 	case "trim":
@@ -531,6 +539,28 @@ func c09Call(e *message.Engine, cache map[int]*message.ChannelStore, f []string)
 			return c09Err(err)
 		}
 		return fmt.Sprintf("ok %d", leo)
+	case "xdup":
+		// xdup fail|ok 3 cmd term committed mode rec... : the SAME exact proposal twice in one StoreAppendBatch
+		// (the second item replays rows that are only staged by the first); `fail` makes the physical commit fail.
+		g := append([]string{"xapp"}, f[2:]...)
+		c := int(n(2))
+		s := c09Store(e, cache, c)
+		item, errs := c09ExactItem(s, c, g)
+		if errs != "" {
+			return errs
+		}
+		if f[1] == "fail" {
+			message.VerifFailCommits(e, 1)
+		}
+		res := message.StoreAppendBatch(ctx, []message.AppendBatchItem{item, item})
+		message.VerifFailCommits(e, 0)
+		one := func(r message.AppendBatchResult) string {
+			if r.Err != nil {
+				return "err"
+			}
+			return fmt.Sprintf("ok.%d.%d.%d", r.BaseOffset, r.LastOffset, r.Outcome)
+		}
+		return one(res[0]) + " " + one(res[1])
 	case "xapp":
 		c := int(n(1))
 		s := c09Store(e, cache, c)
@@ -586,6 +616,41 @@ func c09Call(e *message.Engine, cache map[int]*message.ChannelStore, f []string)
 		return c09Err(c09Store(e, cache, int(n(1))).StoreCheckpointHWMonotonic(ctx, n(2)))
 	}
 	return "bad-op"
+}
+
+// c09ExactItem builds the exact-append item of an `xapp …` field list at the current frontier.
+func c09ExactItem(s *message.ChannelStore, c int, f []string) (message.AppendBatchItem, string) {
+	n := func(i int) uint64 { v, _ := c09ParseNum(f[i]); return v }
+	recs, _ := c09ParseRecs(f[6:])
+	fr, err := s.LoadDurableFrontier(context.Background())
+	if err != nil {
+		return message.AppendBatchItem{}, "err:frontier"
+	}
+	var cmd quorumlog.CommandID
+	for i := range cmd {
+		cmd[i] = 0xC9
+	}
+	v := n(2)
+	for i := 0; i < 8; i++ {
+		cmd[i] = byte(v >> (56 - 8*uint(i)))
+	}
+	m := quorumlog.ProposalManifest{
+		Version: quorumlog.ProposalManifestVersion, ChannelEpoch: 1, LeaderTerm: n(3), FenceVersion: 1, CommandID: cmd,
+		BaseOffset: fr.LEO, LastOffset: fr.LEO + uint64(len(recs)), PreviousIndex: fr.LEO,
+		PreviousTerm: fr.TailIdentity.LeaderTerm, PreviousDigest: fr.TailIdentity.Digest,
+	}
+	qrecs := make([]quorumlog.Record, 0, len(recs))
+	for _, x := range recs {
+		qrecs = append(qrecs, quorumlog.Record{ID: x.id, Epoch: 1, FromUID: c09Tok("u", x.from), ClientMsgNo: c09Tok("c", x.cno),
+			ServerTimestampMS: 1000, SyncOnce: x.flags&4 != 0, Payload: []byte(c09Tok("p", x.pay))})
+	}
+	if sealed, _, ok := quorumlog.SealProposalManifest(m, qrecs); ok {
+		m = sealed
+	}
+	return message.AppendBatchItem{
+		Store: s, Records: c09Records(c, recs, 1), Committed: n(4), ServerAllocatedMessageIDs: n(5) == 1,
+		ExactBaseOffset: true, ExpectedBaseOffset: fr.LEO, Proposal: m,
+	}, ""
 }
 
 func (r *c09Runner) Step(op string) string {
